@@ -20,7 +20,7 @@ func RunHistory(w *World, next func(d Dump, i int) *Op, after func(i int, o Op, 
 		}
 		oc := *o
 		if ob.ModelOps == nil {
-			steps = append(steps, Step{Op: &oc, Obs: ob})
+			steps = append(steps, Step{Op: &oc, Obs: ob, Dedup: w.Cfg.Dedup})
 		} else {
 			for i := range ob.ModelOps {
 				mo := ob.ModelOps[i]
